@@ -22,6 +22,9 @@ SITES = [
     ("fragment_spreading_fragment", "fragment UG on User {D} {{ ...UF color }}", "UG", ["MixA"], A),
     ("two_mixins", "query S6 {{ me {D} {{ id }} }}", "S6Me", ["MixA", "MixB"], A + " " + B),
     ("list_field", "query S7 {{ users {D} {{ id friends {{ id }} }} }}", "S7Users", ["MixB"], B),
+    # the same mixin on two classes of ONE operation (sibling fields; a field and a field nested below it)
+    ("same_mixin_on_siblings", "query S8 {{ user {D} {{ id }} me {D} {{ name }} }}", ("S8User", "S8Me"), ["MixA"], A),
+    ("same_mixin_nested", "query S9 {{ user {D} {{ id bestFriend {D} {{ name }} }} }}", ("S9User", "S9UserBestFriend"), ["MixB"], B),
 ]
 EXTRA = "query S5 { user { ...UG } }"
 NS = len(SITES)
@@ -68,7 +71,8 @@ def run_case(bits, reverse, snake):
                     classes[k] = v
         want = {}
         for (site, _t, cls, mixins, _d), on in zip(SITES, bits):
-            want[cls] = set(mixins) if on else set()
+            for c in (cls if isinstance(cls, tuple) else (cls,)):
+                want[c] = set(mixins) if on else set()
         for cname, cls in classes.items():
             if cname in ("MixA", "MixB"):
                 continue
@@ -103,8 +107,13 @@ def parts_source() -> str:
     for a in (False, True):
         for b in (False, True):
             for c in (False, True):
-                out.append(f"def check_mixin_p{i}(b3: bool, b4: bool, b5: bool, b6: bool, reverse: bool) -> bool:\n    \"\"\"\n    post: _\n    \"\"\"\n"
-                           f"    return _check([{a}, {b}, {c}, b3, b4, b5, b6], reverse, b3 != b5)\n")
+                if os.environ.get("VERIF_C08_THOROUGH", "0") == "1":
+                    out.append(f"def check_mixin_p{i}(b3: bool, b4: bool, b5: bool, b6: bool, b7: bool, b8: bool, reverse: bool) -> bool:\n    \"\"\"\n    post: _\n    \"\"\"\n"
+                               f"    return _check([{a}, {b}, {c}, b3, b4, b5, b6, b7, b8], reverse, b3 != b5)\n")
+                else:
+                    # quick tier: the two same-mixin sites are tied to earlier bits (every on/off combination of the two still occurs)
+                    out.append(f"def check_mixin_p{i}(b3: bool, b4: bool, b5: bool, b6: bool, reverse: bool) -> bool:\n    \"\"\"\n    post: _\n    \"\"\"\n"
+                               f"    return _check([{a}, {b}, {c}, b3, b4, b5, b6, b4, b6], reverse, b3 != b5)\n")
                 i += 1
     return "\n".join(out)
 
